@@ -13,7 +13,7 @@ case "$id/$mk" in
   C12/m3) [ "${MUTROOT:-}" = /tmp/mut2 ] && extra="--features heapless-impl";;
   C04/m3) [ "${MUTROOT:-}" = /tmp/mut2 ] && extra="--features format";;
 esac
-[ "${MUTROOT:-}" = /tmp/mut3 ] && extra=""
+case "${MUTROOT:-}" in /tmp/mut3|/tmp/mut4) extra="";; esac
 [ -f $dir/features.txt ] && extra=$(cat $dir/features.txt)
 cd $wt || exit 2
 git checkout -q -- . ; git clean -fdq -e target
